@@ -187,9 +187,15 @@ class C01(Check):
                     recs = [B.rec(100, (1, 2, 3, 4), 5, cid | q), B.rec(50, (9, 8, 7, 6), 5, other | 1),
                             B.rec(100, (1, 2, 3, 4), 5, cid | q), B.rec(0, (9, 8, 7, 6), 6, other | 2)]
                     exp = [ref_decode(r) for r in recs]
-                    for label in ('v2', 'v3', 'facade'):
+                    for label in ('v2', 'v3', 'facade', 'facade-with-warnings-as-errors'):
+                        import warnings
                         try:
-                            if label == 'v2':
+                            if label == 'facade-with-warnings-as-errors':
+                                # the interpreter runs with warnings turned into errors (python -W error): decoding is still total
+                                with warnings.catch_warnings():
+                                    warnings.simplefilter('error')
+                                    got = [obs_of(e) for e in PyKdebugParser().kevents(io.BytesIO(B.v2([(5, 2, 'a')], 0, recs)))]
+                            elif label == 'v2':
                                 got = [obs_of(e) for e in KdBufParser({}, {}).parse(io.BytesIO(B.v2([(5, 2, 'a')], 0, recs)))]
                             elif label == 'v3':
                                 got = [obs_of(e) for e in KdBufParser({}, {}).parse(io.BytesIO(B.v3([(5, 2, 'a')], [recs[:2], recs[2:]])))]
@@ -345,6 +351,34 @@ class C01(Check):
                 acc.case(nontrivial=True, transitions=4)
                 if got != exp_same:
                     acc.violation('record-decoded-differently-through-container:v3-with-log-records+' + label, {'kind': 'container-logs-filter', 'label': label}, {'got': repr(got)[:200]})
+            # 300 records behind a header whose length is not a multiple of 64, read through buffered streams (io.BufferedReader with the
+            # default, a 4096- and a 100-byte buffer; a file opened with open(path, 'rb')): records straddle the buffer boundaries
+            import os
+            import tempfile
+            many = [B.rec(1000 + i, (i, 2, 3, 4), 9, 0x040c0004 | (i & 3)) for i in range(300)]
+            exp_many = [ref_decode(r) for r in many]
+            for tm in ([], [(1, 2, 'a')]):
+                blob = B.v2(tm, 0, many)
+                fd, path = tempfile.mkstemp(prefix='verif_c01_')
+                os.write(fd, blob)
+                os.close(fd)
+                try:
+                    for label, mk in (('BufferedReader', lambda: io.BufferedReader(io.BytesIO(blob))), ('BufferedReader-4096', lambda: io.BufferedReader(io.BytesIO(blob), buffer_size=4096)),
+                                      ('BufferedReader-100', lambda: io.BufferedReader(io.BytesIO(blob), buffer_size=100)), ('file', lambda: open(path, 'rb')),
+                                      ('file-unbuffered', lambda: open(path, 'rb', buffering=0))):
+                        st = mk()
+                        try:
+                            got = [(e.timestamp, e.data, tuple(e.values), e.tid, e.debugid, e.eventid, e.func_qualifier) for e in KdBufParser({}, {}).parse(st)]
+                        except Exception as ex:
+                            got = repr(ex)
+                        finally:
+                            st.close()
+                        acc.case(nontrivial=True, transitions=300)
+                        if got != exp_many:
+                            acc.violation('record-decoded-differently-through-container:buffered-stream', {'kind': 'container-buffered', 'stream': label, 'thread_map_entries': len(tm)},
+                                          {'got_n': len(got) if isinstance(got, list) else got[:200], 'expected_n': 300})
+                finally:
+                    os.unlink(path)
             # a dump cut in the middle of a record (parsing it raises), then a complete dump, in the same process
             for cut in (1, 20, 63, 64 + 31):
                 whole = B.v2([], 0, [P[0], P[1], P[2]])
